@@ -12,7 +12,9 @@ THEOREM_FILES = ['C06']
 ASSUMPTIONS = ['operand values are computed by the generator (literals, simple sums, .equ symbols); their evaluation is C05',
                'Rust String::as_bytes is UTF-8 (modelled by Model.utf8)']
 RANGES = {'db': (-128, 255), 'dw': (-32768, 65535), 'dd': (-2**31, 2**32 - 1), 'dq': (-2**63, 2**63 - 1)}
-STRINGS = ['', 'a', 'ab', 'abc', 'Hello, World', 'é', 'ñandú', '日本', 'x;y', '/* c */', "it's", 'tab\there', '€', 'a,b', ' ']
+STRINGS = ['', 'a', 'ab', 'abc', 'Hello, World', 'é', 'ñandú', '日本', 'x;y', '/* c */', "it's", 'tab\there', '€', 'a,b', ' ',
+           # a backslash is a character like any other: two bytes for backslash-n, the string may end on one
+           'a\\nb', 'c:\\temp\\new', '\\0', '\\', 'a\\', '\\t\\r\\n', '\\\\', '\\x41', '%d\\n']
 
 def val_text(rng, v, syms):
     k = rng.random()
@@ -27,6 +29,19 @@ def val_text(rng, v, syms):
         return '%s+%d' % (E.num(v - d) if v - d >= 0 else '(%s)' % E.num(v - d), d)
     if k < .5 and v >= 0:
         return '0x%x' % v
+    if k < .75 and -2**62 < v < 2**62:
+        return spell(rng.randrange(1, 7), v)
+    return E.num(v)
+
+def spell(k, v):
+    """the same value written through an operator: the range check looks at the value, not at how it is written"""
+    par = lambda x: E.num(x) if x >= 0 else '(%s)' % E.num(x)
+    if k == 1: return '~' + par(-v - 1)
+    if k == 2: return '-' + par(-v)
+    if k == 3: return '%s | 0' % par(v)
+    if k == 4: return '1 * %s' % par(v)
+    if k == 5: return '~~' + par(v)
+    if k == 6: return '(%s)' % E.num(v)
     return E.num(v)
 
 def gen_line(rng, seg, syms):
@@ -79,6 +94,10 @@ def cases(tier, seed):
             for seg in 'ce':
                 t = E.num(v) if v != -2**63 else '(-9223372036854775807 - 1)'
                 out.append(('%s\n.%s %s' % ('.cseg' if seg == 'c' else '.eseg', dt, t), [(seg, dt, ['v%d' % v])]))
+                if -2**62 < v < 2**62:
+                    for k in range(1, 7):     # the same boundary value written through ~, -, |, *, parentheses; alone and second in a list
+                        out.append(('%s\n.%s %s' % ('.cseg' if seg == 'c' else '.eseg', dt, spell(k, v)), [(seg, dt, ['v%d' % v])]))
+                    out.append(('%s\n.%s 1, %s' % ('.cseg' if seg == 'c' else '.eseg', dt, spell(1, v)), [(seg, dt, ['v1', 'v%d' % v])]))
     for k in range(1, 5):   # k odd .db lines in a row
         out.append(('\n'.join('.db %d' % (i + 1) for i in range(k)), [('c', 'db', ['v%d' % (i + 1)]) for i in range(k)]))
     return out
@@ -134,7 +153,7 @@ def run(tier, seed, model_ok):
                             'source': src, 'impl': a[:200], 'expected_code': code, 'expected_eeprom': ee, 'key': 'bytes'})
     return {
         'evaluations': len(cs), 'distinct_nontrivial': len({c[0] for c in cs}),
-        'rule': 'seeded random programs of 1..6 data lines over .cseg/.eseg (a few in .dseg), 1..5 operands per line mixing values (at/inside/just beyond the range ends of the element width; written as literals, sums, .equ symbols), strings (empty, ASCII, non-ASCII, with comment/quote characters), unknown symbols, .byte in EEPROM; plus the single-operand boundary sweep of every width x both range ends +-2 x both segments and 1..4 odd .db lines in a row; distinct = distinct programs',
+        'rule': 'seeded random programs of 1..6 data lines over .cseg/.eseg (a few in .dseg), 1..5 operands per line mixing values (at/inside/just beyond the range ends of the element width; written as literals, sums, .equ symbols, through ~ - | * and parentheses), strings (empty, ASCII, non-ASCII, with comment/quote characters and backslashes), unknown symbols, .byte in EEPROM; plus the single-operand boundary sweep of every width x both range ends +-2 x both segments x 7 ways of writing the value and 1..4 odd .db lines in a row; distinct = distinct programs',
         'samples': [cs[0][0], cs[1][0]],
         'exhaustive': False,
         'distribution': {'programs_that_build': ok, 'programs_that_must_fail': bad, 'widths': Counter(r[1] for c in cs for r in c[1] if r[1]).most_common()},
